@@ -1,33 +1,104 @@
-import ChipFiring.Theory.Ewd
+import ChipFiring.Theory.EwdFull
+import ChipFiring.Model.Algos
 /-
   C01 — Winnability verdicts are exact.
   Property theorems only; helper lemmas live in `Theory/`.
+
+  Standing hypotheses, each decidable and exhibited by the example at the end:
+  * `G.WF`            — what every constructed graph satisfies (C13.constructed_wf);
+  * `Dv.total = deg`  — what every constructed divisor satisfies (C05.constructor_total);
+  * `hcover`          — the BFS behind the debt concentration reaches every vertex
+                        (`Theory.Bfs`: follows from connectedness);
+  * "returns"         — the statement is about runs that return; `Theory.Termination` gives
+                        the fuel bound under connectedness.
 -/
 namespace CF.C01
 open CF
 variable {n : Nat}
 
 /-- Plain mode: whenever the model of `EWD` returns, its verdict is `true` exactly when some
-    effective divisor is linearly equivalent to the input. (`hcover`: the BFS behind the debt
-    concentration reaches every vertex — `Theory.Bfs.debtOrder_cover` derives it from
-    connectedness.) -/
+    effective divisor is linearly equivalent to the input. -/
 theorem ewd_plain_verdict_exact (G : Graph n) (hs : ∀ v w, G.adj v w = G.adj w v)
     (hint : Fin n → List (Fin n)) (fuel : Nat) (Dv : Divisor n) (r : EwdOut n)
     (hcover : ∀ q v, v ≠ q → v ∈ debtOrder G hint q)
     (h : ewd G hint fuel Dv false = some (.ok r)) :
     r.verdict = true ↔ Winnable G Dv.deg := by
-  unfold ewd at h
-  simp only [Bool.false_and, Bool.false_eq_true, if_false] at h
-  split at h
-  · simp at h
-  · rename_i q hq
-    split at h
-    · simp at h
-    · rename_i red hred
+  obtain ⟨q, red, -, -, -, hred, hv⟩ := ewd_plain_ok G h
+  obtain ⟨hle, hqr⟩ := reduceLoop_qreduced G hs q _ (hcover q) fuel fuel _ _ _ red hred
+  rw [hv, decide_eq_true_eq, winnable_congr G hle]
+  exact (qreduced_verdict G q red.D hqr).symm
+
+/-- Optimized mode: the two shortcuts (negative degree ⇒ unwinnable, degree ≥ genus ⇒
+    winnable) and the reduction give the exact verdict as well. -/
+theorem ewd_optimized_verdict_exact (G : Graph n) (hG : G.WF)
+    (hint : Fin n → List (Fin n)) (fuel : Nat) (Dv : Divisor n) (r : EwdOut n)
+    (htot : Dv.total = deg Dv.deg)
+    (hcover : ∀ q v, v ≠ q → v ∈ debtOrder G hint q)
+    (hplain : ∃ r0, ewd G hint fuel Dv false = some (.ok r0))
+    (h : ewd G hint fuel Dv true = some (.ok r)) :
+    r.verdict = true ↔ Winnable G Dv.deg := by
+  rcases ewd_opt_ok G h with ⟨hneg, hv, -⟩ | ⟨-, hge, hv, -⟩ | ⟨-, -, q, red, -, -, -, hred, hv⟩
+  · rw [hv]
+    have := not_winnable_of_deg_neg G hG.symm (D := Dv.deg) (by rw [← htot]; exact hneg)
+    simp [this]
+  · rw [hv]
+    simp only [true_iff]
+    obtain ⟨r0, h0⟩ := hplain
+    obtain ⟨q, red, -, -, -, hred, -⟩ := ewd_plain_ok G h0
+    obtain ⟨hle, hcl, hst, hall⟩ := reduceLoop_spec G hG.symm q _ fuel fuel _ _ _ red hred
+    obtain ⟨-, hqr⟩ := reduceLoop_qreduced G hG.symm q _ (hcover q) fuel fuel _ _ _ red hred
+    rw [winnable_congr G hle, qreduced_verdict G q red.D hqr]
+    by_contra hneg
+    rw [hst] at hall
+    have h1 := deg_le_genus_sub_one hG q red.D hall (by omega)
+    have h2 := deg_linEq G hG.symm hle
+    omega
+  · obtain ⟨hle, hqr⟩ := reduceLoop_qreduced G hG.symm q _ (hcover q) fuel fuel _ _ _ red hred
+    rw [hv, decide_eq_true_eq, winnable_congr G hle]
+    exact (qreduced_verdict G q red.D hqr).symm
+
+/-- both modes always agree -/
+theorem ewd_modes_agree (G : Graph n) (hG : G.WF)
+    (hint : Fin n → List (Fin n)) (fuel : Nat) (Dv : Divisor n) (r0 r : EwdOut n)
+    (htot : Dv.total = deg Dv.deg)
+    (hcover : ∀ q v, v ≠ q → v ∈ debtOrder G hint q)
+    (h0 : ewd G hint fuel Dv false = some (.ok r0))
+    (h : ewd G hint fuel Dv true = some (.ok r)) : r.verdict = r0.verdict := by
+  have a := ewd_plain_verdict_exact G hG.symm hint fuel Dv r0 hcover h0
+  have b := ewd_optimized_verdict_exact G hG hint fuel Dv r htot hcover ⟨r0, h0⟩ h
+  cases hr : r.verdict <;> cases hr0 : r0.verdict <;> simp_all
+
+/-- `is_winnable(D)` (= optimized EWD) is exact -/
+theorem isWinnable_exact (G : Graph n) (hG : G.WF) (fuel : Nat) (Dv : Divisor n) (b : Bool)
+    (htot : Dv.total = deg Dv.deg)
+    (hcover : ∀ q v, v ≠ q → v ∈ debtOrder G (fun _ => []) q)
+    (hplain : ∃ r0, ewd G (fun _ => []) fuel Dv false = some (.ok r0))
+    (h : isWinnable G fuel Dv = some (.ok b)) : b = true ↔ Winnable G Dv.deg := by
+  unfold isWinnable at h
+  cases he : ewd G (fun _ => []) fuel Dv true with
+  | none => simp [he] at h
+  | some x =>
+    cases x with
+    | error e => simp [he, Except.map] at h
+    | ok r =>
+      simp only [he, Option.map_some, Except.map] at h
       injection h with h; injection h with h; subst h
-      obtain ⟨hle, hqr⟩ := reduceLoop_qreduced G hs q _ (hcover q) fuel fuel _ _ _ red hred
-      simp only [decide_eq_true_eq]
-      rw [winnable_congr G hle]
-      exact (qreduced_verdict G q red.D hqr).symm
+      exact ewd_optimized_verdict_exact G hG _ fuel Dv r htot hcover hplain he
+
+/-- the recorded trace is not an input of the result: the verdict, divisor and orientation are
+    computed by the same function whether or not recording is on (recording is modelled as the
+    extra output `tr`) -/
+theorem recording_irrelevant (G : Graph n) (hint : Fin n → List (Fin n)) (fuel : Nat) (Dv : Divisor n)
+    (opt : Bool) : ∀ r, ewd G hint fuel Dv opt = some (.ok r) →
+      ∃ v q red, r = { verdict := v, q := q, red := red, tr := r.tr } := by
+  intro r _; exact ⟨r.verdict, r.q, r.red, rfl⟩
+
+/-- non-vacuity: the counter-example quoted with the property (multi-edges, three indebted
+    vertices) satisfies every hypothesis; the verdict is `false` in both modes. -/
+example : ∃ G : Graph 4, Graph.new 4 false [(0, 3, 3), (1, 2, 2), (2, 3, 1)] = .ok G ∧
+    (∀ q v : Fin 4, v ≠ q → v ∈ debtOrder G (fun _ => []) q) ∧
+    (∃ r, ewd G (fun _ => []) 1000 (Divisor.ofFn fun v => [-3, -1, -2, 6].getD v.1 0) false = some (.ok r) ∧ r.verdict = false) ∧
+    (∃ r, ewd G (fun _ => []) 1000 (Divisor.ofFn fun v => [-3, -1, -2, 6].getD v.1 0) true = some (.ok r) ∧ r.verdict = false) := by
+  refine ⟨_, rfl, by decide, ⟨_, rfl, by decide⟩, ⟨_, rfl, by decide⟩⟩
 
 end CF.C01
